@@ -9,6 +9,7 @@ import (
 	"math/big"
 	"sort"
 	"sync"
+	"time"
 
 	"github.com/MinterTeam/minter-go-node/coreV2/transaction"
 	"github.com/MinterTeam/minter-go-node/coreV2/types"
@@ -338,6 +339,8 @@ func Exec(w *worlds.World, h History, o Opts) *Trace {
 	r := NewRunner(w, o)
 	tr := r.Tr
 	tr.Hist = h
+	inFlight.Store(tr, time.Now())
+	defer inFlight.Delete(tr)
 	if o.KeepNode {
 		tr.Node = r.N
 	} else {
